@@ -83,7 +83,7 @@ ALLOWED_RAW = {
 
 def rule_raw_memory(rep, fb):
     r = rep.rule("OWN.raw-new-delete", "raw new/delete/free/malloc occur only in the tabled owner files (everything else is shared_ptr / kernel::malloc managed)", floor=5)
-    for f in fb.lib_funcs():
+    for f in fb.lib_funcs(inst=False):
         for c in find_all(f["body"], lambda n: n[0] in ("new", "delete") or (n[0] == "call" and n[1][0] == "fn" and n[1][1] in ("free", "malloc", "realloc", "calloc"))):
             what = c[0] if c[0] != "call" else c[1][1]
             key = "%s#%s" % (f["qual"], what)
@@ -101,7 +101,7 @@ def rule_width(rep, fb, select=None, floor=20, name="WIDTH.implicit-narrowing"):
     r = rep.rule(name, "no implicit integral narrowing (a compiler-inserted 64 -> 32/16/8-bit conversion, e.g. passing an int64_t length to int abs(int)) of lengths, positions or data values in "
                  "libawkward's non-template functions, outside the tabled conversions that are by design", floor=floor)
     table = load_table("width_exceptions.json")
-    for f in fb.lib_funcs():
+    for f in fb.lib_funcs(inst=False):   # instantiations narrow to their element type T by design; the lint is about non-template code
         if select is not None and not select(f):
             continue
         cnt = {}
